@@ -718,7 +718,7 @@ class ModuleVistor(NodeVisitor):
                 # be described as "too complex".
                 raise ValueError()
             docstring: object = ast.literal_eval(expr)
-        except ValueError:
+        except (ValueError, TypeError):
             warn("Unable to figure out value for __doc__ assignment, "
                  "maybe too complex")
             return
@@ -1238,7 +1238,8 @@ def parseAll(node: ast.Assign, mod: model.Module) -> None:
     for idx, item in enumerate(node.value.elts):
         try:
             name: object = ast.literal_eval(item)
-        except ValueError:
+        except (ValueError, TypeError):
+            # TypeError: an unhashable key in a dict or set display.
             mod.report(
                 f'Cannot parse element {idx} of "__all__"',
                 section='all', lineno_offset=node.lineno)
@@ -1271,7 +1272,7 @@ def parseDocformat(node: ast.Assign, mod: model.Module) -> None:
 
     try:
         value = ast.literal_eval(node.value)
-    except ValueError:
+    except (ValueError, TypeError):
         mod.report(
             'Cannot parse value assigned to "__docformat__": not a string',
             section='docformat', lineno_offset=node.lineno)
